@@ -440,6 +440,9 @@ func (m *Machine) jsonEncode(t types.Type, v Value, depth int) Value {
 		case u.Info()&types.IsInteger != 0:
 			return Iface{T: types.Typ[types.Int64], V: v}
 		case u.Info()&types.IsFloat != 0:
+			if sy, ok := v.(*Sym); ok {
+				return Iface{T: types.Typ[types.Float64], V: sy}
+			}
 			f := v.(float64)
 			if math.IsNaN(f) || math.IsInf(f, 0) {
 				m.fail("unsupported", "json: unsupported value NaN/Inf")
@@ -725,12 +728,33 @@ func (m *Machine) parseJSONBytes(v Value) (Value, string) {
 		}
 	}
 	var b []byte
+	var leaves []*JSONLeaf
 	if sv != nil {
-		b = m.bytesOf(sv)
+		for _, e := range sv.A {
+			switch e := e.(type) {
+			case int64:
+				b = append(b, byte(e))
+			case *JSONLeaf:
+				ph := fmt.Sprintf("@@LEAF%d@@", len(leaves))
+				leaves = append(leaves, e)
+				if e.Kind == "string" {
+					b = append(b, ph...)
+				} else {
+					b = append(b, (`"` + ph + `"`)...)
+				}
+			case *StrBlob:
+				b = append(b, m.concStr(e.S, "json bytes")...)
+			default:
+				m.fail("unsupported", fmt.Sprintf("byte slice element %T in JSON input", e))
+			}
+		}
 	}
 	var x interface{}
 	if err := json.Unmarshal(b, &x); err != nil {
 		return nil, err.Error()
+	}
+	if len(leaves) > 0 {
+		return substLeaves(x, leaves), ""
 	}
 	return gtFromNative(x), ""
 }
@@ -741,7 +765,113 @@ func (m *Machine) jsonBytes(gt Value) Value {
 		m.gtRender(&sb, gt)
 		return bytesVal([]byte(sb.String()))
 	}
-	return &SliceV{A: []Value{&JSONBlob{gt}}}
+	var out []Value
+	m.gtRenderHybrid(&out, gt)
+	return &SliceV{A: out}
+}
+
+// JSONLeaf is a symbolic leaf embedded in an otherwise concrete JSON byte sequence.
+type JSONLeaf struct {
+	Kind string // "string" (sits between the quotes) | "number" | "bool"
+	V    Value
+}
+
+func appendBytes(out *[]Value, s string) {
+	for i := 0; i < len(s); i++ {
+		*out = append(*out, int64(s[i]))
+	}
+}
+
+// gtRenderHybrid renders a tree with symbolic leaves: concrete text as bytes, leaves as placeholders.
+func (m *Machine) gtRenderHybrid(out *[]Value, v Value) {
+	if gtConcrete(v) {
+		var sb strings.Builder
+		m.gtRender(&sb, v)
+		appendBytes(out, sb.String())
+		return
+	}
+	i := v.(Iface)
+	switch gtKind(v) {
+	case "bool":
+		*out = append(*out, &JSONLeaf{"bool", i.V})
+	case "number":
+		*out = append(*out, &JSONLeaf{"number", i.V})
+	case "string":
+		appendBytes(out, `"`)
+		*out = append(*out, &JSONLeaf{"string", i.V})
+		appendBytes(out, `"`)
+	case "array":
+		sl := i.V.(*SliceV)
+		appendBytes(out, "[")
+		for k, e := range sl.A {
+			if k > 0 {
+				appendBytes(out, ",")
+			}
+			m.gtRenderHybrid(out, e)
+		}
+		appendBytes(out, "]")
+	case "object":
+		mp := i.V.(*MapV)
+		appendBytes(out, "{")
+		for k := range mp.Keys {
+			if k > 0 {
+				appendBytes(out, ",")
+			}
+			if ks, ok := mp.Keys[k].(string); ok {
+				b, _ := json.Marshal(ks)
+				appendBytes(out, string(b))
+			} else {
+				appendBytes(out, `"`)
+				*out = append(*out, &JSONLeaf{"string", mp.Keys[k]})
+				appendBytes(out, `"`)
+			}
+			appendBytes(out, ":")
+			m.gtRenderHybrid(out, mp.Vals[k])
+		}
+		appendBytes(out, "}")
+	default:
+		m.fail("unsupported", "gtRenderHybrid "+gtKind(v))
+	}
+}
+
+// substLeaves replaces placeholder strings by the symbolic leaves they stand for
+func substLeaves(x interface{}, leaves []*JSONLeaf) Value {
+	switch x := x.(type) {
+	case string:
+		if strings.HasPrefix(x, "@@LEAF") && strings.HasSuffix(x, "@@") {
+			if n, err := strconv.Atoi(x[6 : len(x)-2]); err == nil && n < len(leaves) {
+				l := leaves[n]
+				switch l.Kind {
+				case "string":
+					return gtStr(l.V)
+				case "bool":
+					return gtBool(l.V)
+				case "number":
+					return Iface{T: types.Typ[types.Float64], V: l.V}
+				}
+			}
+		}
+		return gtStr(x)
+	case []interface{}:
+		a := make([]Value, len(x))
+		for i, e := range x {
+			a[i] = substLeaves(e, leaves)
+		}
+		return gtArr(a)
+	case map[string]interface{}:
+		keys := make([]string, 0, len(x))
+		for k := range x {
+			keys = append(keys, k)
+		}
+		sort.Strings(keys)
+		mp := &MapV{}
+		for _, k := range keys {
+			kv := substLeaves(k, leaves).(Iface).V
+			mp.set(nil, kv, substLeaves(x[k], leaves))
+		}
+		return gtObj(mp)
+	}
+	return gtFromNative(x)
 }
 
 func (m *Machine) jsonMarshal(x Value) (Value, Value) {
